@@ -6,6 +6,7 @@ pub mod c05;
 pub mod c06;
 pub mod c07;
 pub mod c12;
+pub mod c14;
 pub mod c17;
 pub mod c18;
 pub mod c19;
@@ -24,6 +25,7 @@ pub const PROPS: &[Prop] = &[
     Prop { id: "C06", run: c06::run, replay: c06::replay },
     Prop { id: "C07", run: c07::run, replay: c07::replay },
     Prop { id: "C12", run: c12::run, replay: c12::replay },
+    Prop { id: "C14", run: c14::run, replay: c14::replay },
     Prop { id: "C17", run: c17::run, replay: c17::replay },
     Prop { id: "C18", run: c18::run, replay: c18::replay },
     Prop { id: "C19", run: c19::run, replay: c19::replay },
@@ -86,6 +88,35 @@ pub fn explore(args: &[String]) {
                 println!("{}\n  => end={:?} result={} moves={} clock={}", prog.trim(), r.end, r.result.as_ref().map(|x| match x { Ok(v) => v.to_string(), Err(e) => format!("ERR {e:?}") }).unwrap_or("<none>".into()), r.moves, r.clock);
                 for (pid, pr) in &r.processes {
                     println!("     pid {pid}: {}", pr.as_ref().map(|x| match x { Ok(v) => v.to_string(), Err(e) => format!("ERR {e:?}") }).unwrap_or("<running>".into()));
+                }
+                println!();
+            }
+        }
+        Some("simio") => {
+            let src = std::fs::read_to_string(&args[1]).expect("read");
+            let workers: usize = args.get(2).and_then(|s| s.parse().ok()).unwrap_or(2);
+            let reg = crate::qrun::registry_io();
+            for prog in src.split("\n====\n") {
+                let c = match crate::qrun::compile(prog, &crate::qrun::Modules::new(), &reg) {
+                    Ok(c) => c,
+                    Err(e) => {
+                        println!("COMPILE FAIL: {e:?}\n{prog}\n");
+                        continue;
+                    }
+                };
+                let bc = c.program.to_bytecode(c.entry);
+                let shared = std::sync::Arc::new(std::sync::Mutex::new(crate::mockfs::Shared::default()));
+                let poke = std::sync::Arc::new(std::sync::atomic::AtomicUsize::new(0));
+                let backend = crate::mockfs::MockBackend::new(shared.clone(), 2, 3, poke.clone());
+                crate::sim::POKE.with(|p| *p.borrow_mut() = Some(poke));
+                let cfg = crate::sim::SimCfg { workers, quanta: vec![1000], schedule: vec![], max_moves: 200_000, env_slow: 0 };
+                let r = crate::sim::run_program(&bc, cfg, &reg, Some(Box::new(backend)), |_, _| Ok(()));
+                println!("{}\n  => end={:?} result={} moves={}", prog.trim(), r.end, r.result.as_ref().map(|x| match x { Ok(v) => v.to_string(), Err(e) => format!("ERR {e:?}") }).unwrap_or("<none>".into()), r.moves);
+                for (pid, pr) in &r.processes {
+                    println!("     pid {pid}: {}", pr.as_ref().map(|x| match x { Ok(v) => v.to_string(), Err(e) => format!("ERR {e:?}") }).unwrap_or("<running>".into()));
+                }
+                for l in &shared.lock().unwrap().log {
+                    println!("     log: {l:?}");
                 }
                 println!();
             }
